@@ -396,7 +396,15 @@ pub fn c04(ctx: &Ctx, rep: &mut Report) {
     rep.assumptions = sim_assumptions();
     ctx.enumerate(rep, "matrix", 64 * 64, 1000, matrix_case, run_c04a);
     let sh = Shape { max_streams: 3, max_wops: 10, allow_empty: true, allow_drop: false, complete: true, small_windows: false, max_sched: 400 };
-    ctx.prop(rep, "progress", ctx.tier.pick(50_000, 2_000_000), 200, || stream_workload(sh), run_c04a);
+    // (the retry budget for flow ids is part of the configuration too: 1 is accepted by the options API and, with ids that do not
+    // collide, must be as good as any other value)
+    ctx.prop(rep, "progress", ctx.tier.pick(50_000, 2_000_000), 200, || (stream_workload(sh), 1usize..=3, 1usize..=3).prop_map(|(mut c, r0, r1)| {
+        if c.rng[0].is_empty() && c.rng[1].is_empty() {
+            c.opts[0].retries = r0;
+            c.opts[1].retries = r1;
+        }
+        c
+    }), run_c04a);
     ctx.prop(rep, "victim", ctx.tier.pick(40_000, 1_500_000), 200, victim_workload, run_c04b);
     // counts far above the generated ones: thousands of streams open on one connection at the same time (a busy server side);
     // every request must be granted while the accepting application keeps accepting
